@@ -193,6 +193,17 @@ def rename_genes(model: "Model", rename_dict: Dict[str, str]) -> None:
     model.repair()
 
     for i in remove_genes:
+        # the gene was merged into an existing one: its group memberships go
+        # to that gene instead of pointing at a gene that left the model
+        survivor = model.genes.get_by_id(rename_dict[i.id])
+        for group in model.get_associated_groups(i):
+            group.remove_members([i])
+            if context:
+                context(partial(group.add_members, [i]))
+            if survivor not in group.members:
+                group.add_members([survivor])
+                if context:
+                    context(partial(group.remove_members, [survivor]))
         model.genes.remove(i)
         i._model = None
         if context:
